@@ -211,6 +211,29 @@ def run_unit(u):
                         qh = b.add("lexhyp", state.state_id, pos, strlike) if qr is not None else None
                         checks.append((case, impl, qm, qr, qh))
             out = b.run()
+            if out[qt] != want_t and out[qt].startswith("table ") and out[qt] != "table fuel":
+                # the implementation's sorted action lists / finish flags differ from the documented
+                # construction (model): search for a position where that changes the token choice -- the scan
+                # over the model's own table is the reference
+                tail = enc[len(enc) - 1 - 2 * len(num.terms):]
+                b2 = Batch()
+                b2.add("ggrammar", enc_ggrammar(num))
+                b2.add("table", [int(x) for x in out[qt].split()[1:]] + tail)
+                refs = []
+                cur = None
+                for case, impl, qm, qr, qh in checks:
+                    if case["input"] != cur:
+                        cur = case["input"]
+                        b2.add("input", enc_input(num, p, cur))
+                    refs.append(b2.add("tokens", case["state"], case["position"], 1 if consume else 0,
+                                       1 if lexdis else 0))
+                out2 = b2.run()
+                for (case, impl, qm, qr, qh), q2 in zip(checks, refs):
+                    xs = [int(x) for x in out2[q2].split()[1:]]
+                    ref = sorted(zip(xs[0::2], xs[1::2]))
+                    if ref != impl:
+                        res["violations"].append({"kind": "token-choice-differs-from-the-scan-over-the-documented-table",
+                                                  "case": case, "observed": impl, "expected": ref})
             broken_states = set()
             st["traces"] += len(checks)
             if out[qt] != want_t:
